@@ -224,6 +224,9 @@ def run(ctx):
     check_prepared_object_used(ctx, "R5")
     ctx.rule("R6", "the caller's allow_changes reaches prepare_dump; its default is False", "objects are converted although the caller did not allow it")
     check_prepare_arguments(ctx, "R6")
+    # "either writes the object as is or raises PrepareDumpError": the exception funnel of the pre-flight stage is the
+    # same structural clause C08 decides (every exception of the prepare stage leaves dump_one / dump_many converted)
+    ctx.borrow("c08", {"R2": "R7"})
 
 def deref_attr(func, node):
     return node
